@@ -169,6 +169,37 @@ theorem c11_dedup_den (pred : Node → Node → Bool) (hr : ∀ a, pred a a = tr
       obtain ⟨_, _, hd⟩ := sim_sink hsim s0 (h.sinks s0 hs0)
       exact ⟨_, ⟨s0, hs0, rfl⟩, hd⟩
 
+/-- **De-duplication, sink by sink.**  `c11_dedup_den` compares the SETS of sink terms; this is the
+"corresponding sink" form of the property: there is one image map `img` (node of the input ↦ node of
+the result) such that every node's image has the same outputs and denotes the same term, the sinks
+of the result are exactly the images of the input's sinks (collected without repetition, as the
+Python set does), so every sink of the input has ITS image among the result's sinks with the same
+term, and every sink of the result is the image of a sink of the input. -/
+theorem c11_dedup_sinks (pred : Node → Node → Bool) (hr : ∀ a, pred a a = true)
+    (hp : ∀ a b, pred a b = true → a.payload = b.payload) (g : Graph) (h : g.WF) :
+    ∃ (g' : Graph) (img : List Nat), dedupGraph pred g = .ok g' ∧ img.length = g.nodes.length ∧
+      g'.sinks = uniq (g.sinks.map (img.getD · 0)) ∧
+      (∀ (i : Nat) (n : Node), g.nodes[i]? = some n →
+        ∃ m, g'.nodes[img.getD i 0]? = some m ∧ m.outputs = n.outputs ∧ den g'.nodes (img.getD i 0) = den g.nodes i) ∧
+      (∀ s ∈ g.sinks, img.getD s 0 ∈ g'.sinks ∧ den g'.nodes (img.getD s 0) = den g.nodes s) ∧
+      (∀ t ∈ g'.sinks, ∃ s ∈ g.sinks, t = img.getD s 0) := by
+  obtain ⟨out, done, ⟨hwf, hsim, hdis⟩, hres⟩ := dedup_result pred hr hp g h
+  refine ⟨_, done, hres, hsim.1, rfl, ?_, ?_, ?_⟩
+  · intro i n hn
+    obtain ⟨t, m, h1, h2, h3, h4⟩ := hsim.2 i n hn
+    have : done.getD i 0 = t := by simp [List.getD_eq_getElem?_getD, h1]
+    exact ⟨m, by rw [this]; exact h2, h3, by rw [this]; exact h4⟩
+  · intro s hs
+    refine ⟨?_, (sim_sink hsim s (h.sinks s hs)).choose_spec.2⟩
+    show done.getD s 0 ∈ uniq (g.sinks.map (done.getD · 0))
+    rw [mem_uniq]
+    exact List.mem_map.2 ⟨s, hs, rfl⟩
+  · intro t ht
+    have ht' : t ∈ uniq (g.sinks.map (done.getD · 0)) := ht
+    rw [mem_uniq] at ht'
+    obtain ⟨s, hs, rfl⟩ := List.mem_map.1 ht'
+    exact ⟨s, hs, rfl⟩
+
 /-- After de-duplication no two nodes have equal payload, outputs and inputs (for a predicate that
 holds whenever the payloads are equal, e.g. `same_payload`). -/
 theorem c11_dedup_unique (pred : Node → Node → Bool) (hr : ∀ a, pred a a = true)
@@ -189,6 +220,22 @@ theorem c11_dedup_unique (pred : Node → Node → Bool) (hr : ∀ a, pred a a =
   · exact hab
   · exact (key b a n m hab hn hm hk).elim
 
+/-- `c11_dedup_unique` for ANY duplicate predicate (also those that do not hold for all equal payloads, such as the
+`payload+name` predicates the correspondence check runs, for which `hc` fails): after de-duplication no two nodes are
+duplicates in the code's own sense - equal outputs, equal inputs, and `pred(later, earlier)` (the orientation in which
+`__find_node` asks: the node being visited against a node already kept). -/
+theorem c11_dedup_unique_pred (pred : Node → Node → Bool) (hr : ∀ a, pred a a = true)
+    (hp : ∀ a b, pred a b = true → a.payload = b.payload) (g : Graph) (h : g.WF) :
+    ∃ g', dedupGraph pred g = .ok g' ∧
+      ∀ (a b : Nat) (m n : Node), a < b → g'.nodes[a]? = some m → g'.nodes[b]? = some n →
+        n.outputs = m.outputs → (∀ k, n.inputs.lookup k = m.inputs.lookup k) → pred n m = false := by
+  obtain ⟨out, done, ⟨hwf, hsim, hdis⟩, hres⟩ := dedup_result pred hr hp g h
+  refine ⟨_, hres, ?_⟩
+  intro a b m n hab hm hn ho hi
+  have := hdis a b m n hab hm hn
+  have hnd := (wf_get out hwf b n hn).1
+  simpa [sameNode, ho, sameInputs_of_lookup _ _ hnd hi] using this
+
 /-- De-duplication is idempotent: a second run returns its input unchanged. -/
 theorem c11_dedup_idem (pred : Node → Node → Bool) (hr : ∀ a, pred a a = true)
     (hp : ∀ a b, pred a b = true → a.payload = b.payload) (g : Graph) (h : g.WF) :
@@ -206,6 +253,10 @@ theorem samePayload_complete : ∀ a b, a.payload = b.payload → samePayload a 
 
 example : ∃ g', dedupGraph samePayload exG = .ok g' ∧ g'.WF ∧ ∀ t, t ∈ g'.sinkDen ↔ t ∈ exG.sinkDen :=
   c11_dedup_den _ samePayload_refl samePayload_sound exG exG_wf
+example := c11_dedup_sinks _ samePayload_refl samePayload_sound exG exG_wf
+-- a predicate for which `hc` fails (equal payloads with different names are no duplicates): `c11_dedup_unique_pred` applies
+example := c11_dedup_unique_pred (fun a b => a.payload == b.payload && a.name == b.name) (by simp)
+  (by intro a b hab; simp only [Bool.and_eq_true, beq_iff_eq] at hab; exact hab.1) exG exG_wf
 /-- the example really merges: 5 nodes, 2 sinks become 3 nodes, 1 sink -/
 example : (match dedupGraph samePayload exG with | .ok g' => (g'.nodes.length, g'.sinks.length) | .error _ => (0, 0)) = (3, 1) := by
   decide
@@ -757,6 +808,60 @@ theorem c11_expand_value_custom {V : Type} (f : SpliceFns) (hf : SpliceOK f) (I 
         simp only [List.getD_eq_getElem?_getD, h1, Option.getD_some]
         exact Or.inl (List.mem_map.2 ⟨(lname, l), mem_of_lookup hl2, rfl⟩)
 
+/-- **An expanded sink is wired to the sub-graph leaf the output map selects, and that leaf carries the value —
+with the leaf fixed BEFORE the interpretation** (in `c11_expand_value_custom` the witness `l` stands under `∀ I` and
+is only said to be some sink).  There are a result `g'` and ONE image list `img` (what `_Expander` did to each node:
+the image of `c11_expand_inner_wiring_custom`) such that for every expanded sink `s` the image is a `_Subgraph` `sg`
+whose block of store nodes is the spliced sub-graph (`BlockAt`: `sg.outputMap` is the code's output map for `n`,
+`sg.leaves` maps each selected leaf name to its store index), and for every output `o` of `n` that a consumer can see
+(`leafOK`) the leaf `l = sg.leaves[sg.outputMap[o]]` is a sink of `g'` and, under EVERY interpretation `I` for which
+the expander is sound, the default output of `l` has the value of output `o` of `s` in the input graph. -/
+theorem c11_expand_leaf_value_custom (f : SpliceFns) (hf : SpliceOK f) (ex : Node → Option Expansion)
+    (g : Graph) (h : g.WF) (hok : expandOK ex g.nodes = true) :
+    ∃ (g' : Graph) (img : List XNode), expandGraphW f ex g = .ok g' ∧ img.length = g.nodes.length ∧
+      g'.sinks = xSinks (g.sinks.map (img.getD · (.node 0))) ∧
+      ∀ (s : Nat) (n : Node) (e : Expansion), s ∈ g.sinks → g.nodes[s]? = some n → ex n = some e →
+        ∃ sg, img[s]? = some (.sub sg) ∧ BlockAt f g'.nodes img n e sg ∧
+          ∀ o ∈ n.outputs, leafOK e o = true →
+            ∃ lname l, sg.outputMap.lookup o = some lname ∧ sg.leaves.lookup lname = some l ∧ l ∈ g'.sinks ∧
+              ∀ {V : Type} (I : Interp V), ExpandSoundW f I ex g.nodes →
+                storeEnv I g'.nodes (l, defaultOutput) = storeEnv I g.nodes (s, o) := by
+  obtain ⟨⟨out, done⟩, hrun, hinvU⟩ :=
+    expandV_run f hf (fun _ _ _ => ()) ex g.nodes h.nodes hok (expandSound_unit f ex g.nodes)
+  have hsk : ∀ x ∈ g.sinks, x < done.length := by
+    intro x hx; rw [hinvU.len]; exact h.sinks x hx
+  have hres : expandGraphW f ex g = .ok { nodes := out, sinks := xSinks (g.sinks.map (done.getD · (.node 0))) } := by
+    simp only [expandGraphW, transform, hrun, sinksOf_total done (.node 0) g.sinks hsk]
+    rfl
+  refine ⟨_, done, hres, hinvU.len, rfl, ?_⟩
+  intro s n e hs' hn he
+  obtain ⟨sg, h1, hb⟩ := hinvU.block s n e hn he
+  refine ⟨sg, h1, hb, ?_⟩
+  intro o ho hl
+  obtain ⟨t, y, h1', h2, _⟩ := hinvU.outv s n hn o ho (fun e' he' => by rw [he] at he'; cases he'; exact hl)
+  rw [h1] at h1'; cases h1'
+  simp only [xOutput, subgraphOutput] at h2
+  cases hl1 : sg.outputMap.lookup o with
+  | none => simp [hl1] at h2
+  | some lname =>
+    simp only [hl1] at h2
+    cases hl2 : sg.leaves.lookup lname with
+    | none => simp [hl2] at h2
+    | some l =>
+      refine ⟨lname, l, rfl, hl2, ?_, ?_⟩
+      · refine (mem_xSinks done g.sinks l).2 ⟨s, hs', ?_⟩
+        simp only [List.getD_eq_getElem?_getD, h1, Option.getD_some]
+        exact Or.inl (List.mem_map.2 ⟨(lname, l), mem_of_lookup hl2, rfl⟩)
+      · intro V I hsnd
+        obtain ⟨st', hrun', hinv⟩ := expandV_run f hf I ex g.nodes h.nodes hok hsnd
+        rw [hrun] at hrun'
+        cases hrun'
+        obtain ⟨t', y', h1'', h2', h3⟩ := hinv.outv s n hn o ho (fun e' he' => by rw [he] at he'; cases he'; exact hl)
+        rw [h1] at h1''; cases h1''
+        simp only [xOutput, subgraphOutput, hl1, hl2] at h2'
+        obtain ⟨rfl, _⟩ := nodeOutput_ok h2'
+        exact h3.1
+
 /-- Names stay unique as far as the code can guarantee it: if the input's node names are unique and
 contain no `'.'`, and each sub-graph's node names are unique, the node names of the result are unique. -/
 theorem c11_expand_names_custom (f : SpliceFns) (hf : SpliceOK f) (ex : Node → Option Expansion) (g : Graph) (h : g.WF)
@@ -798,6 +903,26 @@ theorem c11_expand_value {V : Type} (I : Interp V) (ex : Node → Option Expansi
         ∀ o ∈ n.outputs, leafOK e o = true →
           ∃ l ∈ g'.sinks, storeEnv I g'.nodes (l, defaultOutput) = storeEnv I g.nodes (s, o)) :=
   c11_expand_value_custom defaultSplice spliceOK_default I ex g h hok ((expandSoundW_default I ex g.nodes).2 hs)
+
+/-- `c11_expand_leaf_value_custom` for the default `Splicer`: the consumer-visible outputs of an expanded sink ARE the
+leaves the output map selects (one leaf per output, fixed by the graph and the expander alone), and they carry the values. -/
+theorem c11_expand_leaf_value (ex : Node → Option Expansion) (g : Graph) (h : g.WF) (hok : expandOK ex g.nodes = true) :
+    ∃ (g' : Graph) (img : List XNode), expandGraph ex g = .ok g' ∧ img.length = g.nodes.length ∧
+      g'.sinks = xSinks (g.sinks.map (img.getD · (.node 0))) ∧
+      ∀ (s : Nat) (n : Node) (e : Expansion), s ∈ g.sinks → g.nodes[s]? = some n → ex n = some e →
+        ∃ sg, img[s]? = some (.sub sg) ∧ BlockAt defaultSplice g'.nodes img n e sg ∧
+          ∀ o ∈ n.outputs, leafOK e o = true →
+            ∃ lname l, sg.outputMap.lookup o = some lname ∧ sg.leaves.lookup lname = some l ∧ l ∈ g'.sinks ∧
+              ∀ {V : Type} (I : Interp V), ExpandSound I ex g.nodes →
+                storeEnv I g'.nodes (l, defaultOutput) = storeEnv I g.nodes (s, o) := by
+  obtain ⟨g', img, h1, h2, h3, h4⟩ := c11_expand_leaf_value_custom defaultSplice spliceOK_default ex g h hok
+  refine ⟨g', img, h1, h2, h3, ?_⟩
+  intro s n e hs hn he
+  obtain ⟨sg, a1, a2, a3⟩ := h4 s n e hs hn he
+  refine ⟨sg, a1, a2, ?_⟩
+  intro o ho hl
+  obtain ⟨lname, l, b1, b2, b3, b4⟩ := a3 o ho hl
+  exact ⟨lname, l, b1, b2, b3, fun I hsnd => b4 I ((expandSoundW_default I ex g.nodes).2 hsnd)⟩
 
 /-- `c11_expand_names_custom` for the default `Splicer`. -/
 theorem c11_expand_names (ex : Node → Option Expansion) (g : Graph) (h : g.WF) (hok : expandOK ex g.nodes = true)
@@ -907,6 +1032,7 @@ theorem exY_sound : ExpandSound exIY exYExp exY.nodes := by
 example := c11_expand_total exYExp exY exY_wf exY_ok
 example := c11_expand_inner_wiring exYExp exY exY_wf exY_ok
 example := c11_expand_value exIY exYExp exY exY_wf exY_ok exY_sound
+example := c11_expand_leaf_value exYExp exY exY_wf exY_ok
 example := c11_expand_names exYExp exY exY_wf exY_ok (by decide) (by decide)
   (by
     intro n hn e he
